@@ -659,7 +659,7 @@ func (vc *VC) lookup(h *Heap, fam string) string {
 			t = vc.lookup(h.parent, fam)
 		}
 	case hHavocSet:
-		if inSet(h.set, fam) {
+		if (inSet(h.set, fam) && !vc.isGhostFam(fam)) || h.set[fam] {
 			t = vc.declConst(fmt.Sprintf("%s@%d", fam, h.id), srt)
 		} else {
 			t = vc.lookup(h.parent, fam)
@@ -821,4 +821,14 @@ func (vc *VC) storeLoc(h *Heap, loc *Loc, val Val) *Heap {
 		n.over[fam] = nt
 	}
 	return n
+}
+
+// isGhostFam: ghost families change only through explicit ghost updates /
+// explicit modifies entries, never through wildcard havocs.
+func (vc *VC) isGhostFam(fam string) bool {
+	if !strings.HasPrefix(fam, "H_") {
+		return false
+	}
+	_, ok := vc.S.Ghosts[fam[2:]]
+	return ok
 }
